@@ -21,6 +21,7 @@ def check(chk):
     r53(chk, m)
     r54(chk, m)
     r55(chk, m)
+    r56(chk, m)
     chk.decline('the values bound for concrete invocations (value-level)')
     chk.decline('the mandatory first-token loops of readInteger/readDecimal on a missing number, and '
                 'readKeyword dropping an already expanded element after a missing unit (non-conforming calls)')
@@ -533,3 +534,58 @@ def r55(chk, m):
                     'arm %r: digit set %s (want %s), base %r (want %r), ord %s, consumes one optional space: %s, sign applied %d time(s)'
                     % (key, sets, wsets, base, wbase, has_ord, opt, sign), chk.where(fn),
                     'set %s base %r optspace %s' % (sets, base, opt))
+
+
+# ---------------------------------------------------------------------------
+def r56(chk, m, rule_id='R5.6'):
+    R = chk.rule(rule_id, 'numeric scanners apply the sign read by readOptionalSigns exactly once to every value they '
+                 'return (constants, registers, coerced values)', 10)
+    for fname in ('readInteger', 'readDecimal', 'readDimen', 'readGlue', 'readMuGlue'):
+        fn = m.func('plasTeX.TeX', 'TeX.' + fname)
+        chk.analysed(fn)
+        signvars = [text(n.targets[0]) for n in M.walk_no_nested(fn.node)
+                    if isinstance(n, ast.Assign) and isinstance(n.value, ast.Call) and M.call_name(n.value) == 'self.readOptionalSigns']
+        need(len(signvars) == 1, '%s no longer reads its sign through readOptionalSigns' % fname)
+        sv = signvars[0]
+        assigns = {}
+        for n in M.walk_no_nested(fn.node):
+            if isinstance(n, ast.Assign) and isinstance(n.targets[0], ast.Name):
+                assigns.setdefault(n.targets[0].id, []).append(n)
+
+        def uses(expr, depth=0):
+            """number of times the sign reaches the value of expr"""
+            names = [x.id for x in ast.walk(expr) if isinstance(x, ast.Name)]
+            n = names.count(sv)
+            return n
+
+        def value_sites(expr, seen=()):
+            """(site node, count) for every expression that defines the returned value"""
+            if isinstance(expr, ast.Name) and expr.id in assigns and expr.id not in seen and expr.id != sv:
+                out = []
+                for a in assigns[expr.id]:
+                    if isinstance(a.value, ast.Constant) and a.value.value is None:
+                        continue
+                    selfref = [x for x in ast.walk(a.value) if isinstance(x, ast.Name) and x.id == expr.id]
+                    if selfref:
+                        continue      # refinement of an already signed value (num * register)
+                    out.extend(value_sites(a.value, seen + (expr.id,)))
+                return out
+            # a product/constructor: the sign may come through a local variable
+            cnt = uses(expr)
+            for x in ast.walk(expr):
+                if isinstance(x, ast.Name) and x.id in assigns and x.id != sv and x.id not in seen:
+                    for a in assigns[x.id]:
+                        cnt += uses(a.value)
+            return [(expr, cnt)]
+
+        for r in M.walk_no_nested(fn.node):
+            if not isinstance(r, ast.Return) or r.value is None:
+                continue
+            src = text(r.value)
+            if re.fullmatch(r'(number|float|dimen|glue)\(0\)|0|0\.0', src):
+                chk.ok(R, '%s :: return %s' % (fname, src), 'missing-number recovery returns zero')
+                continue
+            for site, cnt in value_sites(r.value):
+                chk.verdict(R, '%s :: %s' % (fname, M.norm(site)), cnt == 1,
+                            '%s returns %s in which the sign read by readOptionalSigns is applied %d time(s) (must be exactly once)'
+                            % (fname, M.norm(site), cnt), chk.where(fn, site), 'sign applied once')
